@@ -53,10 +53,12 @@ def _name_list(fn, e):
             return _name_list(fn, defs[0].value)
         if len(defs) == 1 and isinstance(defs[0].value, ast.List) and not defs[0].value.elts and len(apps) == 1:
             loop = enclosing(apps[0], ast.For)
-            if loop is not None and isinstance(loop.target, ast.Name) and parent(stmt_of(apps[0])) is loop:
-                return norm(apps[0].args[0], loop.target.id), iter_text(loop.iter), "loop + append"
             if loop is not None and isinstance(loop.target, ast.Name):
-                gs = [t if pol else f"not ({t})" for t, pol in guards_of(apps[0], fn, include_exits=True)]
+                # conditions inside the loop under which the name is (not) appended: an enclosing `if`, an earlier `if ..: continue`
+                outer_gs = guards_of(loop, fn, include_exits=True)
+                gs = [t if pol else f"not ({t})" for t, pol in guards_of(apps[0], fn, include_exits=True) if (t, pol) not in outer_gs]
+                if not gs:
+                    return norm(apps[0].args[0], loop.target.id), iter_text(loop.iter), "loop + append"
                 return norm(apps[0].args[0], loop.target.id), iter_text(loop.iter), f"loop + append, filtered by `{' and '.join(gs)}`"
         return None, "", "list built in an unrecognised way"
     if isinstance(e, ast.ListComp) and len(e.generators) == 1 and not e.generators[0].ifs and isinstance(e.generators[0].target, ast.Name):
